@@ -165,7 +165,7 @@ def run_c04(rep, tier, seed):
     rep.part("list", cases=len(lists), differs_from_transcription=neq, keys=nk)
     rep.sample({"box_in_finest_cells": lists[0]["box"], "bound_keys": lists[0]["bk"], "must_contain": ans["lists"][0]["must"]}, limit=2)
     # ---- 3. end-to-end
-    ws = rng.sample(witnesses, min(len(witnesses), 25 if tier == "quick" else 400))
+    ws = rng.sample(witnesses, min(len(witnesses), 25 if tier == "quick" else 200))
     wcfgs = [witness_cfg(rng, w) for w in ws]
     wl = loader.tlc_layouts(rep, wcfgs, "c04-witness")
     loader.run_batch(rep, wcfgs, wl, {"position"}, "witness-loads")
